@@ -32,7 +32,7 @@ def dispatch_case(registry_kind: str = 'std'):
         reg = stdreg.std_registry(kind)
         return st.builds(
             lambda text, beh, mbs, codec: {'dispatcher': kind, 'max_batch_size': batch_limit(text, mbs), 'behaviours': beh, 'text': text, 'codec': codec},
-            docs.document(reg), stdreg.behaviours(), st.sampled_from(BATCH_LIMITS), st.sampled_from(CODEC_CHOICES),
+            docs.document(reg), stdreg.behaviours(True), st.sampled_from(BATCH_LIMITS), st.sampled_from(CODEC_CHOICES),
         )
     return st.one_of(for_kind('sync'), for_kind('async'))
 
@@ -104,6 +104,9 @@ class C01(Check):
                 {**base, 'text': {'raw': '\udc00'}},
                 {**base, 'codec': 'classes', 'text': t([{'jsonrpc': '2.0', 'id': 1, 'method': 'echo', 'params': [1.5, {'a': [0.25]}]}, {'jsonrpc': '2.0', 'id': 1.5, 'method': 'echo'}])},
                 {**base, 'codec': 'functions', 'text': t({'jsonrpc': '2.0', 'id': 1, 'method': 'echo', 'params': {'a': 2.5}})},
+                {**base, 'behaviours': {'ret': {'kind': 'return', 'value': {'$py': 'mixed-keys'}}}, 'text': t([{'jsonrpc': '2.0', 'id': 1, 'method': 'ret'}, {'jsonrpc': '2.0', 'id': 2, 'method': 'ret'}])},
+                {**base, 'behaviours': {'ret': {'kind': 'return', 'value': {'$py': 'odd-keys'}}}, 'text': t({'jsonrpc': '2.0', 'id': 1, 'method': 'ret'})},
+                {**base, 'behaviours': {'ret': {'kind': 'return', 'value': {'$py': 'tuple'}}}, 'codec': 'functions', 'text': t({'jsonrpc': '2.0', 'id': 1, 'method': 'ret'})},
                 {**base, 'text': {'raw': ''}},
                 {**base, 'text': {'raw': '[]'}},
                 {**base, 'text': t([1])},
